@@ -18,7 +18,12 @@ pub const U64MAX: u64 = u64::MAX;
 pub struct Rng(pub u64);
 impl Rng {
     pub fn new(seed: u64) -> Self {
-        Rng(seed.wrapping_mul(0x9E3779B97F4A7C15).wrapping_add(0x1234567))
+        // hash the seed first: neighbouring seeds must not give shifted copies of one stream
+        let mut z = seed.wrapping_add(0x9E3779B97F4A7C15);
+        z = (z ^ (z >> 30)).wrapping_mul(0xBF58476D1CE4E5B9);
+        z = (z ^ (z >> 27)).wrapping_mul(0x94D049BB133111EB);
+        z ^= z >> 31;
+        Rng(z.wrapping_mul(0x2545F4914F6CDD1D) ^ 0x1234567)
     }
     pub fn next(&mut self) -> u64 {
         self.0 = self.0.wrapping_add(0x9E3779B97F4A7C15);
